@@ -114,6 +114,13 @@ func c13Impls(thorough bool) []c13Impl {
 			return m, ""
 		}})
 	}
+	// the deprecated constructors / options in pkg/persistence forward to the aws-v1 plugin: same contract
+	impls = append(impls, c13Impl{name: "dynamodb-deprecated-pkg-persistence-table=LegacyKeys-suffix=true", build: func() (ae.Metastore, string) {
+		fake := doubles.NewFakeDynamo("us-west-2", "LegacyKeys")
+		c13Unsupported = func() []string { return fake.Unsupported }
+		m := persistence.NewDynamoDBMetastore(c13Session(), persistence.WithDynamoDBRegionSuffix(true), persistence.WithTableName("LegacyKeys"), persistence.WithClient(doubles.DynamoV1{F: fake}))
+		return m, "us-west-2"
+	}})
 	return impls
 }
 
